@@ -20,6 +20,7 @@ type C08AParams struct {
 	Timeout   time.Duration `json:"timeout"`    // 0: no deadline; <0: already expired when the call is issued
 	PreDelay  time.Duration `json:"pre_delay"`  // time between creating the context and issuing the call
 	Transit   time.Duration `json:"transit"`    // transit time of the request
+	BusyFor   time.Duration `json:"busy_for,omitempty"` // >0 (unary only): all eight unary workers of the connection are busy for this long when the request arrives
 }
 
 var c08Timeouts = []time.Duration{
@@ -46,6 +47,9 @@ func genC08A(g *rand.Rand, tier string) any {
 	default:
 		p.PreDelay = time.Duration(g.Int64N(int64(time.Second)))
 	}
+	if p.Kind == KUnary && g.IntN(4) == 0 {
+		p.BusyFor = time.Duration(1+g.Int64N(int64(5*time.Second)))
+	}
 	switch g.IntN(3) {
 	case 0:
 		p.Transit = 0
@@ -70,6 +74,36 @@ func execC08A(e *Env, pp any) {
 	srv := sim.NewServer()
 	net := Build(e, TopoSpec{Kind: TopoDirect, Clients: 1, Links: p.Links}, srv, nil)
 	c2s := net.CEnds[0].Out
+	if p.BusyFor > 0 && c.Kind == KUnary {
+		// eight unary calls whose handlers work for BusyFor occupy the connection's workers first
+		var busy []*CallRec
+		for i := 0; i < 8; i++ {
+			bc := &CallSpec{ID: 10 + i, Kind: KUnary, ReqLen: 4, RespLen: 4, HProg: []Op{{K: 'z', D: p.BusyFor}}}
+			br := sim.Add(bc)
+			busy = append(busy, br)
+			e.Go(fmt.Sprintf("caller.busy%d", i), func() { sim.RunCall(net.CCs[0], br) })
+		}
+		e.NoAutoAdvance = true
+		rr := e.Drive(func() bool {
+			for _, br := range busy {
+				if br.HInvoked == 0 {
+					return false
+				}
+			}
+			return true
+		})
+		e.NoAutoAdvance = false
+		if rr == Crashed || rr == StepLimit {
+			return
+		}
+		e.Note("workers.busy")
+	}
+	var tRead time.Time // when the server's transport handed the measured request to the server
+	c2s.OnRead(func(n int, rq *Rpc) {
+		if callOfEnvelope(rq) == 1 && tRead.IsZero() {
+			tRead = time.Now()
+		}
+	})
 	c2s.Stall()
 	var D time.Time
 	hasD := p.Timeout != 0
@@ -150,7 +184,11 @@ func execC08A(e *Env, pp any) {
 	if Dh.Before(D.Add(-time.Millisecond)) {
 		e.Violate(prop, "deadline-too-early", site, "handler deadline is %v earlier than the caller's (timeout %v, pre-delay %v, transit %v)", D.Sub(Dh), p.Timeout, p.PreDelay, p.Transit)
 	}
-	if Dh.After(D.Add(t2.Sub(t1))) {
+	if !tRead.IsZero() && Dh.After(D.Add(tRead.Sub(t1)).Add(time.Millisecond)) {
+		// transit ends when the server has the request; time the request then waits
+		// for a free worker is not transit
+		e.Violate(prop, "deadline-too-late", site+".queued", "handler deadline is %v later than the caller's; the request was in transit for %v and then waited %v for a worker (timeout %v)", Dh.Sub(D), tRead.Sub(t1), t2.Sub(tRead), p.Timeout)
+	} else if Dh.After(D.Add(t2.Sub(t1))) {
 		e.Violate(prop, "deadline-too-late", site, "handler deadline is %v later than the caller's, more than the transit time %v (timeout %v)", Dh.Sub(D), t2.Sub(t1), p.Timeout)
 	}
 	if p.Timeout >= 27*time.Hour+46*time.Minute+40*time.Second {
